@@ -149,6 +149,10 @@ class C16(Harness):
                         for tt, v in enumerate(inp["x"][i][j]):
                             a[i, j, tt] = v
                 out["array"] = rows_of(apply(a))
+                # the same data passed as a 3-D array at FIT time
+                t2 = self._build(W, k, inp, sym)
+                t2.fit(a)
+                out["fit_on_array"] = rows_of(t2.transform(X))
             return out
         finally:
             worlds.TOKEN_MODE[0] = False
@@ -173,6 +177,7 @@ class C16(Harness):
         self._same(P, "single-instance-equals-batch-row", out["single"][0], full[inp["single"]], d)
         if "array" in out:
             self._same(P, "container-independent", out["array"], full, d)
+            self._same(P, "container-independent", out["fit_on_array"], full, dict(d, at="fit"))
 
     def signature(self, label, inp, cell, detail=None):
         return "%s/%s" % (cell["kind"], label)
